@@ -1250,6 +1250,14 @@ pub fn run(opts: &Opts) {
     let mut out = Out::new(&opts.out);
     let mut rng = Rng::new(opts.seed);
     let root = crate::node::scratch_dir(&opts.out, "c18");
+    // removes the scratch directory also when a malformed replay makes the harness panic (unwinding)
+    struct RootGuard(PathBuf);
+    impl Drop for RootGuard {
+        fn drop(&mut self) {
+            let _ = std::fs::remove_dir_all(&self.0);
+        }
+    }
+    let _guard = RootGuard(root.clone());
     // the inputs on which the three known deviations show are always generated; `no-probe` leaves them out
     let probe_known = !opts.extra.iter().any(|s| s == "no-probe");
     let mut sim = Sim::new(root.clone());
